@@ -18,6 +18,7 @@ for name in names:
         rc, o = run(["git", "-C", "/repo", "apply", "--whitespace=nowarn", d + "/patch.diff"])
         assert rc == 0, o
         rc, o = run(["timeout", "400", "/verif/bin/check", "-p", "all", "-json", "-no-selftest"], "/verif")
+        assert rc in (0, 1), f"check did not finish (exit {rc}) on {name}: {o.strip()[-200:]}"
         line = o.strip().splitlines()[-1] if o.strip() else "[]"
         for f in json.loads(line) or []:
             fired.setdefault(f["property"], []).append(f"{f['rule']} {f['function']}: {f['construct']}" + (" (undecided)" if f["kind"] != "violation" else ""))
